@@ -76,6 +76,8 @@ def gen_case(rng):
             # an older snapshot of another agent in the same directory: [file-name stem, seconds older]
             # the same agent / version written once before with ANOTHER state (a re-snapshot without a version bump)
             "prewrite_same_version": rng.random() < 0.4, "booted_first": rng.random() < 0.3,
+            "graph_cfg": rng.choice([None, None, {"decay": {"epsilon_prune": 0.2, "floor": 0.1}}, {"decay": {"epsilon_prune": 0.01}}, {"enabled": True, "update": {"clamp_min": -0.3, "clamp_max": 0.3}}]),
+            "sde": rng.choice([None, None, "1700000000", "1700000000.25", "2023-11-14", "", "-5", "1e9"]),
             "older_sibling": rng.choice([None, ["zz-older", 0.5], ["0-older", 0.5], ["zz-older", 0.004], ["zz-older", 3.0], ["~older", 0.25]])}
 
 
@@ -118,7 +120,7 @@ def ref_round6(x):
     return round(float(x), 6)
 
 
-def ref_edges(gel, lo, hi):
+def ref_edges(gel, lo, hi, eps=0.0):
     ge = gel.get("edges", {})
     items = list(ge.values()) if isinstance(ge, dict) else [e for e in ge if isinstance(e, dict)]
     stage1 = {}
@@ -132,8 +134,10 @@ def ref_edges(gel, lo, hi):
         elif w > hi:
             w = hi
         w = ref_round6(w)
+        if abs(w) < eps:
+            w = 0.0  # graph.decay.epsilon_prune: weights below it are stored as 0.0 (the edge itself stays)
         a, b = (src, dst) if src <= dst else (dst, src)
-        stage1[(a, b, rel)] = {"src": src, "dst": dst, "rel": rel, "weight": w, "updated_at": e.get("updated_at"), "attrs": e.get("attrs", {})}
+        stage1[(a, b, rel)] = {"src": src, "dst": dst, "rel": rel, "weight": w, "updated_at": e.get("updated_at"), "attrs": e.get("attrs") if isinstance(e.get("attrs"), dict) else {}}
     out = {}
     for (a, b, rel), rec in stage1.items():
         if rec["src"] and rec["dst"]:
@@ -162,7 +166,30 @@ def check_case(case, sess: Session):
 
     lo, hi = case["bounds"]
     with tmpdir("c06_") as d:
-        cfg = to_ad({"t4": {"snapshot_dir": d, "weight_min": lo, "weight_max": hi, "snapshot_every_n_turns": 1}})
+        raw_cfg = {"t4": {"snapshot_dir": d, "weight_min": lo, "weight_max": hi, "snapshot_every_n_turns": 1}}
+        if case.get("graph_cfg"):
+            raw_cfg["graph"] = copy.deepcopy(case["graph_cfg"])  # graph-layer settings must not change what a snapshot restores
+        cfg = to_ad(raw_cfg)
+        # the build-reproducibility variable the sidecar stamp honours, in well- and ill-formed spellings
+        old_sde = os.environ.get("SOURCE_DATE_EPOCH")
+        if case.get("sde") is None:
+            os.environ.pop("SOURCE_DATE_EPOCH", None)
+        else:
+            os.environ["SOURCE_DATE_EPOCH"] = case["sde"]
+        try:
+            return _check_case_inner(case, sess, d, cfg, lo, hi)
+        finally:
+            if old_sde is None:
+                os.environ.pop("SOURCE_DATE_EPOCH", None)
+            else:
+                os.environ["SOURCE_DATE_EPOCH"] = old_sde
+
+
+def _check_case_inner(case, sess, d, cfg, lo, hi):
+    import clematis.engine.snapshot as S
+    from clematis.engine.types import ProposedDelta
+
+    if True:
         ctx = NS(turn_id=case["turn"], agent_id=case["agent"], cfg=cfg, config=cfg)
         gel = build_gel(case)
         st = WStore()
@@ -334,7 +361,8 @@ def check_case(case, sess: Session):
         if case["has_store"]:
             if list(st2.w.keys()) != list(st.w.keys()) or not all(nan_eq(st2.w[k], st.w[k]) for k in st.w):
                 sess.violation("store-weights-not-restored", case, {"got": [(k, repr(v)) for k, v in list(st2.w.items())[:4]], "written": [(k, repr(v)) for k, v in list(st.w.items())[:4]]})
-        exp = ref_edges(gel0, lo, hi)
+        eps_ = float((((case.get("graph_cfg") or {}).get("decay") or {}).get("epsilon_prune", 0.0)) or 0.0)
+        exp = ref_edges(gel0, lo, hi, max(eps_, 0.0))
         got = fresh.get("graph", {}).get("edges", {})
         if fresh.get("graph") is not fresh.get("gel") and fresh.get("graph") != fresh.get("gel"):
             sess.violation("graph-and-gel-views-differ-after-load", case, None)
